@@ -568,6 +568,10 @@ pub struct LifeCase {
     pub queries: Vec<u8>,
     #[serde(default)]
     pub sp_sel: u8,
+    /// the queries of every phase go to one query node that has been serving since before the
+    /// split started (default: a fresh node per phase)
+    #[serde(default)]
+    pub long_lived: bool,
 }
 
 async fn ingest_live(store: &Arc<dyn object_store::ObjectStore>, inner: &Arc<dyn MetadataClient>, flush_rows: u8, sp: i64, batches: &[SBatch], rid: &mut i64, accepted: &mut Vec<RecordBatch>) -> Result<(), (String, String)> {
@@ -589,14 +593,22 @@ async fn ingest_live(store: &Arc<dyn object_store::ObjectStore>, inner: &Arc<dyn
     Ok(())
 }
 
-async fn compare_queries(out: &mut Outcome, store: &Arc<dyn object_store::ObjectStore>, inner: &Arc<dyn MetadataClient>, all: &[RecordBatch], sp: i64, queries: &[u8], phase: &str) -> bool {
+async fn compare_queries(out: &mut Outcome, store: &Arc<dyn object_store::ObjectStore>, inner: &Arc<dyn MetadataClient>, all: &[RecordBatch], sp: i64, queries: &[u8], phase: &str, long_lived: Option<&cardinalsin::query::QueryNode>) -> bool {
     let schema = all[0].schema();
     let env = Env { store: store.clone(), metadata: inner.clone(), all: all.to_vec(), schema: schema.clone() };
-    let node = match query_node(&env, false).await {
-        Ok(n) => n,
-        Err(e) => {
-            out.set_fail("query-node-failed", e);
-            return false;
+    let fresh;
+    let node = match long_lived {
+        // a query node that has been serving since before the split started
+        Some(n) => n,
+        None => {
+            fresh = match query_node(&env, false).await {
+                Ok(n) => n,
+                Err(e) => {
+                    out.set_fail("query-node-failed", e);
+                    return false;
+                }
+            };
+            &fresh
         }
     };
     let (lo, hi) = (sp - 60_000_000_000, sp + 60_000_000_000);
@@ -663,7 +675,21 @@ pub fn exec_lifecycle(case: &LifeCase) -> Outcome {
             }
             all.push(rb);
         }
-        if !compare_queries(&mut out, &store, &inner, &all, sp, &case.queries, "before-split").await {
+        let served_since_before = if case.long_lived {
+            out.class("long-lived-query-node");
+            let env = Env { store: store.clone(), metadata: inner.clone(), all: all.clone(), schema: all[0].schema() };
+            match query_node(&env, false).await {
+                Ok(n) => Some(n),
+                Err(e) => {
+                    out.set_fail("query-node-failed", e);
+                    return out;
+                }
+            }
+        } else {
+            None
+        };
+        let ll = served_since_before.as_ref();
+        if !compare_queries(&mut out, &store, &inner, &all, sp, &case.queries, "before-split", ll).await {
             return out;
         }
         // ---- dual-write phase ----
@@ -679,7 +705,7 @@ pub fn exec_lifecycle(case: &LifeCase) -> Outcome {
             out.set_fail(s, m);
             return out;
         }
-        if !compare_queries(&mut out, &store, &inner, &all, sp, &case.queries, "dual-write").await {
+        if !compare_queries(&mut out, &store, &inner, &all, sp, &case.queries, "dual-write", ll).await {
             return out;
         }
         // ---- back-fill phase: the real splitter copies the old shard's chunks ----
@@ -699,14 +725,14 @@ pub fn exec_lifecycle(case: &LifeCase) -> Outcome {
                 return out;
             }
         }
-        if !compare_queries(&mut out, &store, &inner, &all, sp, &case.queries, "back-fill").await {
+        if !compare_queries(&mut out, &store, &inner, &all, sp, &case.queries, "back-fill", ll).await {
             return out;
         }
         if let Err((s, m)) = ingest_live(&store, &inner, case.flush_rows, sp, &case.late, &mut rid, &mut all).await {
             out.set_fail(s, m);
             return out;
         }
-        if !compare_queries(&mut out, &store, &inner, &all, sp, &case.queries, "back-fill+writes").await {
+        if !compare_queries(&mut out, &store, &inner, &all, sp, &case.queries, "back-fill+writes", ll).await {
             return out;
         }
         out.nontrivial = copies > 0 && !case.dual.is_empty();
@@ -726,7 +752,7 @@ pub fn def() -> PropDef {
     PropDef {
         id: "C15",
         level: "exploration",
-        rule: "routing: real Ingester whose catalog reports a DualWrite / Backfill split (split point ten minutes ago, exactly at the epoch, or 7 s after it - rows of either sign around it) for the computed shard; 1-4 batches of 1-5 rows with timestamps 2 steps below .. exactly at .. 2 steps above the split point, 2 metrics, nullable host, Int64 timestamps (Timestamp(ns)-typed batches as a separate class), both catalog back-ends; oracle: chunks under each new shard's path hold exactly the accepted rows on its side (split-point rows in the upper shard), each once, and the old-shard chunks hold every accepted row. e2e: QueryNode on data dual-written by the ingester, 6 query shapes incl. count / sum / group by, vs the same SQL over a MemTable of the accepted rows. Non-trivial = rows on both sides of / at the split point, or >=2 series per (timestamp, metric), or copies present. lifecycle: an old shard with 1-3 stored chunks (paths carry the shard id), real start_split -> dual-write phase with 0-2 batches through the ingester (which sees the catalog's real split state) -> the real ShardSplitter::run_backfill -> 0-2 more batches; the same queries against a fresh QueryNode before the split, in the dual-write phase, after the back-fill and after the late writes, each vs the MemTable reference. Non-trivial there = back-fill copies exist and something was dual-written.",
+        rule: "routing: real Ingester whose catalog reports a DualWrite / Backfill split (split point ten minutes ago, exactly at the epoch, or 7 s after it - rows of either sign around it) for the computed shard; 1-4 batches of 1-5 rows with timestamps 2 steps below .. exactly at .. 2 steps above the split point, 2 metrics, nullable host, Int64 timestamps (Timestamp(ns)-typed batches as a separate class), both catalog back-ends; oracle: chunks under each new shard's path hold exactly the accepted rows on its side (split-point rows in the upper shard), each once, and the old-shard chunks hold every accepted row. e2e: QueryNode on data dual-written by the ingester, 6 query shapes incl. count / sum / group by, vs the same SQL over a MemTable of the accepted rows. Non-trivial = rows on both sides of / at the split point, or >=2 series per (timestamp, metric), or copies present. lifecycle: an old shard with 1-3 stored chunks (paths carry the shard id), real start_split -> dual-write phase with 0-2 batches through the ingester (which sees the catalog's real split state) -> the real ShardSplitter::run_backfill -> 0-2 more batches; the same queries against a fresh QueryNode per phase or (every other case) one query node that has been serving since before the split started, before the split, in the dual-write phase, after the back-fill and after the late writes, each vs the MemTable reference. Non-trivial there = back-fill copies exist and something was dual-written.",
         assumptions: &["for genuinely identical ingested rows any multiplicity between 1 and the ingested one is accepted", "DataFusion's evaluator is the trusted reference for the end-to-end part"],
         subs: || {
             vec![
@@ -737,7 +763,7 @@ pub fn def() -> PropDef {
                     cases: |t| t.scale(2_500, 5),
                     strategy: |_| {
                         let sb = || prop::collection::vec(srow(), 1..6).prop_map(|rows| SBatch { rows, ts_type: 0 });
-                        (0u8..2, 0u8..8, prop::collection::vec(sb(), 1..4), prop::collection::vec(sb(), 0..3), prop::collection::vec(sb(), 0..3), prop::collection::vec(0u8..6, 1..4), prop_oneof![3 => Just(0u8), 1 => Just(1u8), 1 => Just(2u8)]).prop_map(|(backend, flush_rows, history, dual, late, queries, sp_sel)| LifeCase { backend, flush_rows, history, dual, late, queries, sp_sel }).boxed()
+                        (0u8..2, 0u8..8, prop::collection::vec(sb(), 1..4), prop::collection::vec(sb(), 0..3), prop::collection::vec(sb(), 0..3), prop::collection::vec(0u8..6, 1..4), prop_oneof![3 => Just(0u8), 1 => Just(1u8), 1 => Just(2u8)], any::<bool>()).prop_map(|(backend, flush_rows, history, dual, late, queries, sp_sel, long_lived)| LifeCase { backend, flush_rows, history, dual, late, queries, sp_sel, long_lived }).boxed()
                     },
                     exec: exec_lifecycle,
                 }),
